@@ -82,7 +82,7 @@ def graphs() -> Any:
 
 def parts(tier: str) -> List[Part]:
     if tier == "thorough":
-        return [Part("graphs", "given", shards=16, examples=6000, strategy=graphs, soft_deadline_s=1800)]
+        return [Part("graphs", "given", shards=16, examples=15000, strategy=graphs, soft_deadline_s=3000)]
     return [Part("graphs", "given", shards=8, examples=1200, strategy=graphs, soft_deadline_s=150)]
 
 
